@@ -231,7 +231,7 @@ class Gen:
             self.features.add("assign")
         elif r < 0.24 and ints:
             self.features.add("augassign")
-            self.emit(ind, f"{self.pick(ints)} {self.pick(['+=', '-=', '*='])} {self.int_expr(env, 1)}")
+            self.emit(ind, f"{self.pick(ints)} {self.pick(['+=', '-=', '*='] if not in_loop else ['+=', '-='])} {self.int_expr(env, 1)}")
         elif r < 0.29:
             v = self.fresh("s")
             self.emit(ind, f"{v} = {self.str_expr(env)}")
